@@ -11,6 +11,10 @@ gates in order, prescribed channels right after their trigger / right before the
 readout errors; input circuit not mutated).  NoiseModel.apply was repaired in /repo; the harness
 detects which variant is present (original / repaired / repaired with fresh M copies), evaluates the matching Coq model
 (Model.apply / ModelFixed.apply2) and treats any return of the old defects (REPRO table) as a VIOLATION.
+Further streams (harness/c19_extra.py): trajectory enumeration with exact-zero / sum-to-one probabilities, the sampled index ->
+applied operator mapping spied per sampler call (Props.trajectory_branch_index, zero_probability_operators_irrelevant), deterministic
+mixtures with the real sampler; histories add / apply / add / apply on ONE NoiseModel / IBMQNoiseModel object against a fresh model
+with the accumulated rules (Props.noise_history_equals_fresh); with_pauli_noise called repeatedly on one circuit.
 """
 STATIC = ["C19/Props"]
 import ast
@@ -1281,7 +1285,12 @@ RULE = ("random circuits (n<=6: H/X/RX/CNOT/CZ/TOFFOLI/SWAP/RZZ on random non-as
         "None or a gate class incl. M and channel classes, qubits None / int / tuples with repeats and absent qubits, conditions "
         "None / callable / list from noise._Conditions plus opaque predicates, all ten error types incl. zero strength); "
         "'clean' stream = inputs in the class of noise_apply_exact_partial; IBMQNoiseModel.from_dict dictionaries; "
-        "with_pauli_noise maps (list / dict, wrong sizes, non-qubit keys, zero rows); nontrivial = at least one rule and one gate")
+        "with_pauli_noise maps (list / dict, wrong sizes, non-qubit keys, zero rows); nontrivial = at least one rule and one gate; "
+        "trajectory enumeration with exact-zero probabilities at every position / probabilities summing to exactly one / single and "
+        "repeated operators for Pauli, unitary, depolarizing (k<=3) mixtures, direct and inserted by with_pauli_noise / NoiseModel, the "
+        "sampler forced through every draw and the applied gate spied (fixed corpus + random); deterministic mixtures with the real sampler; "
+        "histories add*;apply;add;apply;... on ONE NoiseModel / IBMQNoiseModel object (late rules keyed None / seen / unseen classes, "
+        "qubits, conditions, shared error objects, the same circuit object applied twice) against a fresh model with the accumulated rules")
 
 
 def cap_findings(run, per_class=4):
@@ -1351,6 +1360,16 @@ def main(run):
     run.notes["stream_pauli"] = pauli_cases(run, rng, n_pauli)
     run.notes["trajectory_worst_abs_diff"] = trajectory_test(run, rng, n_traj)
     run.notes["dm_reference_worst_abs_diff"] = dm_reference_test(run, rng, 400 if thorough else 120)
+    # exact zeros / sum-to-one probabilities in the mixtures (sampled index -> applied operator), histories on one model object
+    from harness import c19_extra
+    import time
+    t0 = time.time()
+    run.notes["trajectory_zero_probabilities"] = c19_extra.zero_prob_trajectories(run, random.Random(run.seed + 190), 150 if thorough else 30)
+    t1 = time.time()
+    run.notes["noise_history"] = c19_extra.noise_history(run, random.Random(run.seed + 191), *((250, 60) if thorough else (45, 10)))
+    t2 = time.time()
+    run.notes["pauli_noise_histories"] = c19_extra.pauli_histories(run, random.Random(run.seed + 192), 300 if thorough else 80)
+    run.notes["extra_stream_seconds"] = [round(t1 - t0, 1), round(t2 - t1, 1), round(time.time() - t2, 1)]
     depolarizing_mixture_check(run)
     run.notes["ibmq_readout_doc_convention_ok"] = ibmq_readout_convention(run)
     run.notes["ibmq_scalar_readout_multiqubit_measurement_ok"] = ibmq_scalar_readout(run)
@@ -1362,6 +1381,15 @@ def replay(run, data):
     key = data.get("key", "")
     if key.startswith("depolarizing:"):
         depolarizing_mixture_check(run)
+        return run.finish(rule="replay of one recorded case")
+    if key.startswith("trajectory:zero:") or key.startswith("trajectory:deterministic:"):
+        from harness import c19_extra
+        c19_extra.replay_zero(run, key, data.get("what", ""), rp)
+        return run.finish(rule="replay of one recorded case")
+    if key.startswith("history:"):
+        from harness import c19_extra
+        detect_variant()
+        c19_extra.replay_history(run, key, data.get("what", ""), rp)
         return run.finish(rule="replay of one recorded case")
     if key.startswith("trajectory:"):
         d, total = traj_case(rp["case"])
